@@ -20,9 +20,9 @@ MODULE = "comm/Trace_BlockDiag.tla"
 MODS = ["PSK4", "QAM16", "BPSK", "PSK8"]
 PLENS = [30, 60, 120, 240]
 NAMES = ["None", "naive", "fixed", "capacity", "effective_throughput", "lala"]
-EVAL_BD = ["EffectiveChannelBlockDiagonal", "ReturnedChannelIsChannelTimesPrecoder", "PowerLePerUser", "PowerEqPerUser",
+EVAL_BD = ["EarlierResultsUnchanged", "EffectiveChannelBlockDiagonal", "ReturnedChannelIsChannelTimesPrecoder", "PowerLePerUser", "PowerEqPerUser",
            "PowerReachedByOne", "EffectiveStreamsOrthogonal", "WaterLevelCommonOnPoweredStreams", "InputsUntouched"]
-EVAL_EXT = ["InterUserNullWithExtInt", "PowerEqPerUser", "StreamCountsMatchPrecoders", "ReceiveFilterInvertsOnPoweredStreams",
+EVAL_EXT = ["EarlierResultsUnchanged", "InterUserNullWithExtInt", "PowerEqPerUser", "StreamCountsMatchPrecoders", "ReceiveFilterInvertsOnPoweredStreams",
             "ExtIntRemovedWhenEnoughStreamsSacrificed", "InputsUntouched"]
 
 
@@ -55,7 +55,21 @@ def record_trace(job):
                 ops += ["CalcReceiveFilter"]
         if cls == "EBD":
             ops += ["SetMetric", "SetMetric", "SetMetric"]
+        ops += ["SetAttr"]
         op = ops[rs.randint(0, len(ops))]
+        cfgv = {"p": [drv.cfg["p"], 1], "nv": [drv.cfg["nv"], 1], "pe": [drv.cfg["pe"], 1]}
+        if op == "SetAttr":
+            # assignment to a public attribute of the live object (power sweep ...)
+            attr = ["iPu", "noise_var"] + (["pe"] if cls != "BD" else [])
+            attr = attr[rs.randint(0, len(attr))]
+            val = {"iPu": float(np.round(10 ** rs.uniform(-1.3, 1.0), 4)), "noise_var": float(np.round(10 ** rs.uniform(-4.0, 0.5), 6)),
+                   "pe": 0.0 if rs.rand() < 0.3 else float(np.round(10 ** rs.uniform(-0.5, 1.0), 4))}[attr]
+            msgs = drv.step(dict(_edge("SetAttr", {"attr": attr, "value": [val, 1]}), probe={"ok": False}), False)
+            rec = {"op": "SetAttr", "attr": attr, "pe": "zero" if drv.cfg["pe"] == 0 else "hi"}
+            if msgs:
+                rec["op"] = "SetAttrBroken:" + msgs[0][1][:150]
+            ev.append(rec)
+            continue
         if op == "SetMetric":
             name = NAMES[rs.randint(0, len(NAMES))]
             a = {"ns": 0, "mod": "none", "plen": 0}
@@ -91,13 +105,13 @@ def record_trace(job):
         if op == "SolveBD":
             which = ["bd_wf", "mod_bd_wf"] + (["bd_nowf"] if cls == "BD" else [])
             rec["which"] = which[rs.randint(0, len(which))]
-            msgs = [b for _, b in drv.step(_edge("SolveBD", {"op": rec["which"]}, EVAL_BD), False)]
+            msgs = [b for _, b in drv.step(_edge("SolveBD", {"op": rec["which"], "cfg": cfgv}, EVAL_BD), False)]
             evaluated = EVAL_BD
             can_filter = not any(" raised " in m for m in msgs)
         elif op == "SolveExt":
             if acc_ns > N:
                 continue
-            msgs = [b for _, b in drv.step(_edge("SolveExt", [], EVAL_EXT), False)]
+            msgs = [b for _, b in drv.step(_edge("SolveExt", {"cfg": cfgv}, EVAL_EXT), False)]
             evaluated = EVAL_EXT
             can_filter = False
             if drv.res is not None and drv.res[0] == "ext" and not any("raised" in m for m in msgs):
@@ -106,8 +120,8 @@ def record_trace(job):
                 except Exception:
                     rec["ns"] = []
         elif op == "CalcWhitening":
-            msgs = [b for _, b in drv.step(_edge("CalcWhitening", [], ["WhiteningFiltersWhitenExtIntPlusNoise", "InputsUntouched"]), False)]
-            evaluated = ["WhiteningFiltersWhitenExtIntPlusNoise", "InputsUntouched"]
+            msgs = [b for _, b in drv.step(_edge("CalcWhitening", {"cfg": cfgv}, ["WhiteningFiltersWhitenExtIntPlusNoise", "InputsUntouched"]), False)]
+            evaluated = ["WhiteningFiltersWhitenExtIntPlusNoise", "InputsUntouched", "EarlierResultsUnchanged"]
             can_filter = False
         else:
             msgs = [b for _, b in drv.step(_edge("CalcReceiveFilter", {"how": ["static", "module"][rs.randint(0, 2)]},
